@@ -66,7 +66,10 @@ def classify_vm(v):
     if "erification failed" in err: return "verify-failed"
     m = re.search(r"runtime error: (.*)", err)
     if m:
-        return "fault" if VM_DOCUMENTED.search(m.group(1)) else "stuck:" + m.group(1)[:60]
+        # only messages that positively name an internal failure count as stuck; a documented fault or a message this
+        # check does not know (wording may change) is not a violation
+        if VM_DOCUMENTED.search(m.group(1)): return "fault"
+        return "stuck:" + m.group(1)[:60] if VM_STUCK.search(m.group(1)) else "fault"
     return "normal"
 
 
